@@ -2,7 +2,8 @@
 Proof: coq/theories/Properties/C02.v (models Query/{Compare,Paging,ScanUnique,ScanSort}.v).
 Correspondence: Store.QueryIds, Store.QueryWithCursorC and Store.IterateIds of a real bolt store
 against the extracted model and the extracted specification, on generated datasets (ties, nulls
-of every sortable type) x sort specifications x the bounded-exhaustive paging grid."""
+of every sortable type) x sort specifications x the bounded-exhaustive paging grid and the pairs at
+the numeric extremes of int64 (skip + limit at and beyond MaxInt64 with a finite limit)."""
 import json
 import os
 
@@ -276,7 +277,11 @@ def main(argv):
                      "columns, 0-60% nulls, values from small pools so that ties are frequent): sort specifications (every single key "
                      "in both directions, id-first combinations, 5-key specification, random 0..5(+) keys) x the full paging grid "
                      "skip in {absent,0,-1,-5,1,n-1,n,n+3,2^62,min,max} x limit in {absent,none,0,1,n,-1,-7,2^62,max} "
-                     "+ 40 random queries; each query is run through QueryIds, QueryWithCursorC and IterateIds. "
+                     "+ 40 random queries; + the numeric-extremes pairs (small skip x finite limit MaxInt64-1, -2, -n, the limit making "
+                     "skip+limit exactly MaxInt64 and exactly 2^63, limits around 2^62, MinInt64; skip near MaxInt64 / around 2^62 / "
+                     "MinInt64 x absent, none, tiny, n, near-MaxInt64 limits) on every systematic specification of the probe dataset and a "
+                     "rotating third + one specification per scan strategy elsewhere, + 40 random queries next to the int64 landmarks; "
+                     "each query is run through QueryIds, QueryWithCursorC and IterateIds (stats: skip_plus_limit, strategy_x_sum). "
                      "Non-trivial: at least two matching rows and a sort, skip or limit clause; distinct by (dataset, case text)")
     c.cov["samples"] = samples
     c.cov["violation_classes"] = reported
